@@ -262,11 +262,11 @@ def check(facts, rep, tier, cfg):
     sub = type(rep)(rep.prop, rep.tier, rep.config)
     rules_c08.check(facts, sub, tier, cfg)
     rep.paths += sub.paths
-    hit = [v for v in sub.violations if v["rule"] == "C08.R3"]
+    hit = [v for v in sub.violations if v["rule"] == "C08.R3" or v["key"].endswith("arm-flag/keepalive")]
     for v in hit:
         rep.bad("C16.R5", "unbounded-peer-wait-after-timeout", v["where"], v["msg"])
     if not hit:
-        rep.ok("C16.R5", "no-unbounded-wait-after-timeout", "", "C08.R3 holds")
+        rep.ok("C16.R5", "no-unbounded-wait-after-timeout", "", "C08.R3 holds and the keepalive arm selects the failure teardown (flag false)")
     # ---- R6 a Pong that is already in the socket is seen before the timeout is evaluated
     rep.rule("C16.R6", "in the connection task's biased select the receive loop (which records Pongs) is polled before the keepalive check, so an "
                        "answer that arrived in time is never judged by the previous Pong's timestamp")
